@@ -1170,16 +1170,25 @@ func readSectionPart(dec *imapwire.Decoder) (part []int, dot bool) {
 
 type fetchLiteralReader struct {
 	*imapwire.LiteralReader
-	ch chan<- struct{}
+	ch  chan<- struct{}
+	err error
 }
 
 func (lit *fetchLiteralReader) Read(b []byte) (int, error) {
+	// Once the decoder goroutine has been unblocked, the underlying reader
+	// must not be used anymore
+	if lit.err != nil {
+		return 0, lit.err
+	}
 	n, err := lit.LiteralReader.Read(b)
 	// Unblock the decoder goroutine once the literal has been fully read, or
 	// when it cannot be read anymore (e.g. the connection has been lost)
-	if err != nil && lit.ch != nil {
-		close(lit.ch)
-		lit.ch = nil
+	if err != nil {
+		lit.err = err
+		if lit.ch != nil {
+			close(lit.ch)
+			lit.ch = nil
+		}
 	}
 	return n, err
 }
